@@ -111,6 +111,10 @@ PROGRAMS = {
     "selfpause": {"msgs": [M("open_run"), M("checkpoint"), M("null"), M("pause", a="F"), M("null"), M("checkpoint"), M("pause", a="T"), M("null"),
                            M("checkpoint"), M("null"), M("close_run")]},
     "selfpause_nores": {"msgs": [M("open_run"), M("checkpoint"), M("null"), M("clear_checkpoint"), M("null"), M("pause", a="F"), M("null"), M("null")]},
+    # ... with clean-up code of several messages (all of it has to run)
+    "selfpause_nores_fin": {"msgs": [M("open_run"), M("checkpoint"), M("stage", "det"), M("clear_checkpoint"), M("null"), M("pause", a="F"), M("null"),
+                                     M("null"), M("unstage", "det"), M("close_run")],
+                            "kind": "finalize", "try": [3, 7], "cleanup": [8, 10]},
     "selfdefer_nores": {"msgs": [M("open_run"), M("checkpoint"), M("pause", a="T"), M("clear_checkpoint"), M("null"), M("checkpoint"), M("null")]},
     # bundle / descriptor / run-key behaviour (monitored; commands beyond RE.tla's vocabulary are not conformance-checked)
     "collide": {"msgs": [M("open_run"), M("checkpoint"), M("create", a="primary"), M("read", "det"), M("read", "det"), M("save"), M("close_run")]},
@@ -450,7 +454,7 @@ def corpus_spec(tier):
     quick = tier == "quick"
     sweeps = []
     progs = ["simple", "two", "fin", "move", "mon", "multi", "defer", "norew", "paus", "err", "openonly", "nores_open", "nores_rew", "multi_close", "amove", "aopen",
-             "selfpause", "selfpause_nores", "selfdefer_nores", "norew_save"]
+             "selfpause", "selfpause_nores", "selfpause_nores_fin", "selfdefer_nores", "norew_save"]
     kinds = REQ_KINDS
     if quick:
         sweeps.append(dict(plans=progs, kinds=["pause", "suspend", "abort"], decisions=["resume"], ri=True))
